@@ -492,9 +492,15 @@ def run(chk):
             for Tn in (2, 3):
                 for assign in ("block", "cyclic"):
                     sc.append({"kernel": kernel, "shape": shp, "seed": seed + i, "T": Tn, "assign": assign, "bound": 2 if i == 0 or tier != "quick" else 1, "max_exec": 4000 if tier == "quick" else 40000})
+    if tier != "quick":
+        # deeper: the smallest shape of every kernel with 3 preemptions and with 4 model threads
+        for kernel, shapes in tiny.items():
+            for Tn, bnd in ((2, 3), (3, 3), (4, 2)):
+                for assign in ("block", "cyclic"):
+                    sc.append({"kernel": kernel, "shape": shapes[0], "seed": seed, "T": Tn, "assign": assign, "bound": bnd, "max_exec": 200000})
     sc.append({"kernel": "unstructured", "shape": {"dim": 1, "X": 3, "F": 1, "B": 2}, "seed": seed, "T": 2, "assign": "block", "bound": 2, "racy": True})
     sc.append({"kernel": "unstructured", "shape": {"dim": 2, "X": 3, "F": 2, "B": 2}, "seed": seed, "T": 3, "assign": "cyclic", "bound": 1, "racy": True})
-    cases, results = chk.run("schedules", case_schedule, sc, rule="8 parallel kernels x tiny shapes x T in {2,3} x {static block, cyclic} iteration assignment: all schedules up to 2 preemptions executed on the translated source (read and write of every shared written element are scheduling points), outcome compared bit-wise with the sequential result; footprint independence => all interleavings equivalent; racy variant of 'unstructured' as negative control", chunk=1, min_outcomes=2)
+    cases, results = chk.run("schedules", case_schedule, sc, rule="8 parallel kernels x tiny shapes x T in {2,3} (thorough also 4) x {static block, cyclic} iteration assignment: all schedules up to 2 preemptions (thorough: 3 on the smallest shape of every kernel) executed on the translated source (read and write of every shared written element are scheduling points), outcome compared bit-wise with the sequential result; footprint independence => all interleavings equivalent; racy variant of 'unstructured' as negative control", chunk=1, min_outcomes=2)
     sub = chk.groups["schedules"]["sub"]
     chk.control("explorer finds lost updates in a racy kernel variant (prange moved to the pair loop)", sub.get("racy_detected", 0) >= 2, info=f"racy variants detected: {sub.get('racy_detected', 0)} of 2, distinct outcomes {sub.get('racy_outcomes', 0)}")
     chk.states += int(sub.get("executions", 0))
